@@ -10,7 +10,9 @@ R = "norminette/rules/"
 LIMITS = {"COLS": 80, "LINES": 25, "FUNCS": 5, "ARGS": 4, "VARS": 5}
 
 
-def rule_setup(relpath, clsname, minhist=0, more=None):
+def rule_setup(relpath, clsname, minhist=1, more=None):
+    """minhist=1: a check runs after Registry.run_rules appended the matching primary to
+    context.history, so the history is never empty when a check runs"""
     def setup(E, st):
         cls = E.repo.find_class(relpath, clsname)
         ctx = T.make_context(E, st, minhist=minhist)
